@@ -80,21 +80,31 @@ def ray_parallel(ctx, dim, case):
     ctx.check_true('status=COLINEAR', st == ray.RayIntersection.COLINEAR, 'status = %r' % (st,))
 
 
+def _skew_shapes(tier):
+    out = [dict(big=2, d=[1, 0, 0], e=[0, 1, 0]), dict(big=0, d=[1, 2, 2], e=[2, 1, -2]), dict(big=1, d=[1, 1, 0], e=[0, 1, 1]),
+           dict(big=2, d=[3, -1, 2], e=[1, 1, 1])]
+    if tier == 'thorough':
+        out += [dict(big=0, d=None, e=[1, 2, -1]), dict(big=1, d=None, e=[0, 1, 3]), dict(big=2, d=None, e=[2, -1, 0])]
+    return out
+
+
 @scenario('C20', fns=['ray.intersect', 'ray._intersect3d', 'ray.Ray.eval', 'linalg.point_distance', 'linalg.vector_is_zero'],
-          quick=[dict(big=0, e=[1, 2, -1]), dict(big=1, e=[0, 1, 3]), dict(big=2, e=[2, -1, 0])])
-def ray_skew(ctx, big, e):
-    """requires: 3-D lines with n = d1 x d2, component `big` of n at least the tolerance in absolute value; line 2 passes
-                 through X + h n where X is on line 1, and the distance |h| |n| of the lines is at least the tolerance
+          quick=lambda: _skew_shapes('quick'), thorough=lambda: _skew_shapes('thorough'))
+def ray_skew(ctx, big, d, e):
+    """requires: 3-D lines with directions d1 (the stated constants, or fully symbolic when d is None) and d2 (constants),
+                 n = d1 x d2 with component `big` at least the tolerance in absolute value; line 1 passes through a
+                 symbolic point X, line 2 through X + h n; the distance |h| |n| of the lines is at least the tolerance;
+                 the ray origins are anywhere on their lines (symbolic s1, s2)
        ensures : status SKEW"""
     X = ctx.point('X', 3)
-    d1 = ctx.point('d', 3)
-    d2 = ctx.point('e', 3) if e is None else [ctx.lit(c) for c in e]
+    d1 = ctx.point('d', 3) if d is None else [ctx.lit(c) for c in d]
+    d2 = [ctx.lit(c) for c in e]
     s1, s2, h = ctx.num('s1'), ctx.num('s2'), ctx.num('h')
     n = cross3(d1, d2)
     ctx.assume(_far(ctx, n[big], RAY_TOL))
     ctx.assume(ctx.ge(h * h * dot(n, n), RAY_TOL * RAY_TOL))
-    P1 = [x - s1 * d for x, d in zip(X, d1)]
-    P2 = [x + h * c - s2 * d for x, c, d in zip(X, n, d2)]
+    P1 = [x - s1 * c for x, c in zip(X, d1)]
+    P2 = [x + h * c - s2 * k for x, c, k in zip(X, n, d2)]
     ray, r1, r2 = _rays(ctx, P1, d1, P2, d2)
     t1, t2, st = ray.intersect(r1, r2, tol=ctx.lit(RAY_TOL))
     ctx.check_true('status=SKEW', st == ray.RayIntersection.SKEW, 'status = %r' % (st,))
@@ -113,3 +123,341 @@ def ray_arguments(ctx):
     ctx.check_raises('points_of_different_size', ValueError, ray.Ray, [0, 0], [1, 1, 1])
     ctx.check_eq_vec('eval(0)=p1', a.eval(0), [ctx.num('x'), ctx.num('y')])
     ctx.check_eq_vec('eval(1)=p2', a.eval(1), [1, 2])
+
+
+# ------------------------------------------------------------------------------------------------
+# planar predicates
+# ------------------------------------------------------------------------------------------------
+def area2(a, b, c):
+    """twice the signed area of the triangle a, b, c ( > 0: counter-clockwise, c left of a -> b)"""
+    return (b[0] - a[0]) * (c[1] - a[1]) - (c[0] - a[0]) * (b[1] - a[1])
+
+
+def _pts(ctx, name, n):
+    return [[ctx.num('%s%dx' % (name, i)), ctx.num('%s%dy' % (name, i))] for i in range(n)]
+
+
+@scenario('C20', fns=['linalg.is_left'], quick=[dict()])
+def is_left(ctx):
+    """ensures: is_left(p0, p1, p2) = twice the signed area of (p0, p1, p2) = determinant |p1-p0, p2-p0|; antisymmetric
+                under exchange of two points, invariant under cyclic rotation, zero for a repeated point"""
+    la = ctx.geomdl('linalg')
+    a, b, c = _pts(ctx, 'p', 3)
+    got = la.is_left(a, b, c)
+    shoelace = a[0] * b[1] - b[0] * a[1] + b[0] * c[1] - c[0] * b[1] + c[0] * a[1] - a[0] * c[1]
+    ctx.check_eq('is_left=signed_area', got, shoelace)
+    ctx.check_eq('is_left.cyclic', la.is_left(b, c, a), got)
+    ctx.check_eq('is_left.antisymmetric', la.is_left(b, a, c), -got)
+    ctx.check_eq('is_left.degenerate', la.is_left(a, b, a), 0)
+    ctx.check_eq('is_left.on_line', la.is_left(a, b, [a[0] + ctx.num('t') * (b[0] - a[0]), a[1] + ctx.num('t') * (b[1] - a[1])]), 0)
+
+
+def winding_spec(P, V):
+    """winding number of the closed polygon V[0..n] (V[n] = V[0]) about P by the signed crossings of the *vertical upward*
+    ray from P (the code under contract counts crossings of the horizontal ray to the right): an edge that passes
+    above P from left to right turns clockwise about P (-1), from right to left counter-clockwise (+1)"""
+    wn = 0
+    for a, b in zip(V, V[1:]):
+        if a[0] <= P[0]:
+            if b[0] > P[0] and area2(a, b, P) < 0:
+                wn -= 1
+        else:
+            if b[0] <= P[0] and area2(a, b, P) > 0:
+                wn += 1
+    return wn
+
+
+def off_boundary(ctx, P, V):
+    """P is on no edge (closed segment) of the polygon"""
+    for a, b in zip(V, V[1:]):
+        ctx.assume(ctx.any(ctx.ne(area2(a, b, P), 0),
+                           ctx.gt((P[0] - a[0]) * (P[0] - b[0]), 0), ctx.gt((P[1] - a[1]) * (P[1] - b[1]), 0)))
+
+
+@scenario('C20', fns=['linalg.wn_poly', 'linalg.is_left'],
+          quick=[dict(n=3, fixed=2), dict(n=3, fixed=4), dict(n=4, fixed=6), dict(n=5, fixed=8)],
+          thorough=[dict(n=3, fixed=0), dict(n=3, fixed=2), dict(n=4, fixed=3), dict(n=4, fixed=4), dict(n=4, fixed=6), dict(n=5, fixed=7),
+                    dict(n=5, fixed=8)])
+def winding(ctx, n, fixed):
+    """requires: closed polygon with n vertices (self-intersections allowed; the first `fixed` coordinates of the vertex list
+                 are the stated constants, every other coordinate and the query point symbolic), query point on no edge
+       ensures : wn_poly(P, V) is True iff the winding number of V about P is non-zero (independent spec: signed crossings
+                 of the vertical ray; the code uses the horizontal ray)"""
+    la = ctx.geomdl('linalg')
+    consts = [0, 0, 4, 1, 3, 5, -1, 4, -2, 1]
+    V = _pts(ctx, 'v', n)
+    k = 0
+    for pt in V:
+        for c in range(2):
+            if k < fixed:
+                pt[c] = ctx.lit(consts[k])
+            k += 1
+    V = V + [V[0]]
+    P = [ctx.num('px'), ctx.num('py')]
+    off_boundary(ctx, P, V)
+    got = la.wn_poly(P, V)
+    ctx.check_true('wn_poly.returns_bool', isinstance(got, bool))
+    want = winding_spec(P, V)
+    ctx.check_true('wn_poly=(winding!=0)', got == (want != 0), 'wn_poly = %r, winding number = %d' % (got, want))
+
+
+def _hull_shapes(tier):
+    out = [dict(n=3, order=[0, 1, 2]), dict(n=3, order=[2, 0, 1]), dict(n=4, order=[0, 1, 2, 3]), dict(n=4, order=[2, 0, 3, 1])]
+    if tier == 'thorough':
+        out += [dict(n=4, order=list(o)) for o in itertools.permutations(range(4)) if list(o) not in ([0, 1, 2, 3], [2, 0, 3, 1])]
+        out += [dict(n=5, order=[0, 1, 2, 3, 4]), dict(n=5, order=[3, 1, 4, 0, 2]), dict(n=5, order=[4, 3, 2, 1, 0])]
+    else:
+        out += [dict(n=5, order=[3, 1, 4, 0, 2])]
+    return out
+
+
+@scenario('C20', fns=['linalg.convex_hull'], quick=lambda: _hull_shapes('quick'), thorough=lambda: _hull_shapes('thorough'))
+def convex_hull(ctx, n, order):
+    """requires: n points in general position - pairwise different abscissae (q_0.x < q_1.x < ...), no three collinear -
+                 handed to the function in the stated order (`order` permutes the x-sorted points)
+       ensures : the hull is a list of input points without repetition, at least 3 of them, in counter-clockwise order
+                 (every consecutive triple turns left) and every input point is on or to the left of every hull edge;
+                 the input list is not reordered"""
+    la = ctx.geomdl('linalg')
+    Q = _pts(ctx, 'q', n)
+    for a, b in zip(Q, Q[1:]):
+        ctx.assume(ctx.lt(a[0], b[0]))
+    for i, j, k in itertools.combinations(range(n), 3):
+        ctx.assume(ctx.ne(area2(Q[i], Q[j], Q[k]), 0))
+    pts = [Q[i] for i in order]
+    arg = list(pts)
+    hull = la.convex_hull(arg)
+    ctx.check_true('hull.input_not_reordered', len(arg) == n and all(a is b for a, b in zip(arg, pts)))
+    ctx.check_true('hull.subset_of_input', all(any(h is p for p in pts) for h in hull))
+    ctx.check_true('hull.no_repetition', all(hull[i] is not hull[j] for i in range(len(hull)) for j in range(i)))
+    ctx.check_true('hull.at_least_a_triangle', len(hull) >= 3, 'hull has %d points' % len(hull))
+    m = len(hull)
+    for i in range(m):
+        a, b, c = hull[i], hull[(i + 1) % m], hull[(i + 2) % m]
+        ctx.check('hull.counter_clockwise[%d]' % i, _lt0(ctx, -area2(a, b, c)), nonlinear=True)
+        for k, p in enumerate(pts):
+            if p is a or p is b:
+                continue
+            ctx.check('hull.edge[%d].point[%d].on_or_left' % (i, k), _le0(ctx, -area2(a, b, p)), nonlinear=True)
+
+
+def _le0(ctx, x):
+    return ctx.sign_free_le(x, 0) if ctx.mode == 'sym' else ctx.le(x, 0)
+
+
+def _lt0(ctx, x):
+    return ctx.sign_free_lt(x, 0) if ctx.mode == 'sym' else ctx.lt(x, 0)
+
+
+# ------------------------------------------------------------------------------------------------
+# voxelisation
+# ------------------------------------------------------------------------------------------------
+VOX_TOL = Fraction(1, 10 ** 7)        # _voxelize.find_inouts_st / is_point_inside_voxel: tol = 10e-8
+
+
+def _inside(p, lo, hi, tol):
+    """the voxel [lo, hi] inflated by the code's padding; closed below, open above"""
+    return all(lo[a] - tol <= p[a] and p[a] < hi[a] + tol for a in range(3))
+
+
+def _check_filled(ctx, grid, filled, pts, tol):
+    ctx.check_true('filled.len', len(filled) == len(grid))
+    for k, (lo, hi) in enumerate(grid):
+        want = any(_inside(p, lo, hi, tol) for p in pts)
+        ctx.check_true('filled[%d]=exists_sample_inside' % k, filled[k] in (0, 1) and (filled[k] == 1) == want,
+                       'filled = %r, some sampled point inside: %r' % (filled[k], want))
+
+
+def _check_cover(ctx, grid, bbox):
+    """the union of the voxels contains the bounding box: per axis the voxel intervals start at the box minimum, overlap or
+    touch, and end at or beyond the box maximum; the grid is the full product of the three interval families"""
+    fam = []
+    for a in range(3):
+        ivs = []
+        for lo, hi in grid:
+            if not any(lo[a] == x[0] and hi[a] == x[1] for x in ivs):
+                ivs.append((lo[a], hi[a]))
+        ivs.sort(key=lambda x: x[0])
+        fam.append(ivs)
+        ctx.check_eq('grid.axis%d.starts_at_bbox_min' % a, ivs[0][0], bbox[0][a])
+        for (l0, h0), (l1, h1) in zip(ivs, ivs[1:]):
+            ctx.check('grid.axis%d.no_gap' % a, ctx.le(l1, h0))
+        ctx.check('grid.axis%d.reaches_bbox_max' % a, ctx.ge(ivs[-1][1], bbox[1][a]))
+    ctx.check_true('grid.full_product', len(grid) == len(fam[0]) * len(fam[1]) * len(fam[2]))
+
+
+def _trilinear(ctx, corner, ext):
+    pts = {}
+    for w in range(2):              # layout index v + sv*(u + su*w)
+        for u in range(2):
+            for v in range(2):
+                pts[v + 2 * (u + 2 * w)] = [corner[0] + u * ext[0], corner[1] + v * ext[1], corner[2] + w * ext[2]]
+    P = [pts[i] for i in range(8)]
+    kv = [ctx.lit(0), ctx.lit(0), ctx.lit(1), ctx.lit(1)]
+    return shapes.build_volume(ctx, 1, 1, 1, kv, list(kv), list(kv), P, 2, 2, 2)
+
+
+@scenario('C20', fns=['voxelize.voxelize', '_voxelize.generate_voxel_grid', '_voxelize.find_inouts_st',
+                      '_voxelize.is_point_inside_voxel', 'linalg.frange', 'utilities.evaluate_bounding_box'],
+          quick=[dict(grid=[2, 2, 2], samples=2), dict(grid=[2, 3, 2], samples=2), dict(grid=[3, 2, 4], samples=3)],
+          thorough=[dict(grid=[2, 2, 2], samples=2), dict(grid=[2, 3, 2], samples=2), dict(grid=[3, 2, 4], samples=3),
+                    dict(grid=[4, 4, 4], samples=4), dict(grid=[5, 3, 8], samples=3)])
+def voxel_box(ctx, grid, samples):
+    """requires: trilinear volume = axis-aligned box with symbolic corner and symbolic extents > 1/1000, sampled on a
+                 samples^3 lattice; grid sizes as stated
+       ensures : the grid has prod(grid) voxels: voxel (i, j, l) (l fastest) = [min + (i, j, l) * step, that + step] with
+                 step = extent/(size - 1), so it covers the bounding box; filled[k] = 1 iff some sampled point lies in
+                 voxel k (inflated by the code's padding 1e-7, upper faces excluded)"""
+    vx = ctx.geomdl('voxelize')
+    corner = ctx.point('c', 3)
+    ext = ctx.point('e', 3)
+    for x in ext:
+        ctx.assume(ctx.gt(x, Fraction(1, 1000)))
+    vol = _trilinear(ctx, corner, ext)
+    vol.sample_size = samples
+    pts = [list(p) for p in vol.evalpts]
+    ctx.check_true('samples.count', len(pts) == samples ** 3)
+    g, filled = vx.voxelize(vol, grid_size=tuple(grid))
+    bbox = [list(corner), [c + x for c, x in zip(corner, ext)]]
+    ctx.check_eq_grid('bbox', [list(vol.bbox[0]), list(vol.bbox[1])], bbox)
+    ctx.check_true('grid.len', len(g) == grid[0] * grid[1] * grid[2], 'len(grid) = %d' % len(g))
+    step = [x / (n - 1) for x, n in zip(ext, grid)]
+    k = 0
+    for i in range(grid[0]):
+        for j in range(grid[1]):
+            for l in range(grid[2]):
+                lo = [corner[0] + i * step[0], corner[1] + j * step[1], corner[2] + l * step[2]]
+                ctx.check_eq_vec('grid[%d].min' % k, g[k][0], lo)
+                ctx.check_eq_vec('grid[%d].max' % k, g[k][1], [a + b for a, b in zip(lo, step)])
+                k += 1
+    _check_cover(ctx, g, bbox)
+    _check_filled(ctx, g, filled, pts, VOX_TOL)
+
+
+def _curved_volume(ctx):
+    """degree (2, 1, 1) volume with 3 x 2 x 2 concrete control points (bent in x-y, sheared in z)"""
+    pts = {}
+    for w in range(2):
+        for u in range(3):
+            for v in range(2):
+                x = Fraction(3 * u, 2) + Fraction(v, 4)
+                y = 2 * v + Fraction(u * (2 - u), 1) + Fraction(w, 3)
+                z = 3 * w + Fraction(u, 5)
+                pts[v + 2 * (u + 3 * w)] = [ctx.lit(x), ctx.lit(y), ctx.lit(z)]
+    P = [pts[i] for i in range(12)]
+    one = [ctx.lit(0), ctx.lit(0), ctx.lit(1), ctx.lit(1)]
+    two = [ctx.lit(0)] * 3 + [ctx.lit(1)] * 3
+    return shapes.build_volume(ctx, 2, 1, 1, two, list(one), list(one), P, 3, 2, 2), P
+
+
+@scenario('C20', fns=['voxelize.voxelize', '_voxelize.generate_voxel_grid', '_voxelize.find_inouts_st',
+                      '_voxelize.is_point_inside_voxel', 'linalg.frange'],
+          quick=[dict(grid=[2, 2, 2], samples=3, cubes=False), dict(grid=[3, 3, 3], samples=4, cubes=False),
+                 dict(grid=[3, 2, 4], samples=3, cubes=True), dict(grid=[4, 3, 2], samples=5, cubes=False)],
+          thorough=[dict(grid=[a, b, c], samples=s, cubes=q) for a, b, c, s, q in
+                    ((2, 2, 2, 3, False), (3, 3, 3, 4, False), (3, 2, 4, 3, True), (4, 3, 2, 5, False), (5, 5, 5, 6, False),
+                     (8, 8, 8, 5, False), (6, 7, 8, 4, True), (2, 8, 3, 7, False))])
+def voxel_concrete(ctx, grid, samples, cubes):
+    """requires: the stated concrete curved volume, sampled with samples^3 points; grid sizes as stated; cuboid voxels or
+                 cubes (use_cubes)
+       ensures : the voxels cover the bounding box of the volume (for cuboids: exactly prod(grid) voxels);
+                 filled[k] = 1 iff some sampled point lies in voxel k (with the code's padding)"""
+    vx = ctx.geomdl('voxelize')
+    vol, P = _curved_volume(ctx)
+    vol.sample_size = samples
+    pts = [list(p) for p in vol.evalpts]
+    ctx.check_true('samples.count', len(pts) == samples ** 3)
+    g, filled = vx.voxelize(vol, grid_size=tuple(grid), use_cubes=cubes)
+    lo = [min(p[a] for p in P) for a in range(3)]
+    hi = [max(p[a] for p in P) for a in range(3)]
+    ctx.check_eq_grid('bbox', [list(vol.bbox[0]), list(vol.bbox[1])], [lo, hi])
+    if not cubes:
+        ctx.check_true('grid.len', len(g) == grid[0] * grid[1] * grid[2], 'len(grid) = %d' % len(g))
+    _check_cover(ctx, g, [lo, hi])
+    ctx.check_true('samples.all_in_some_voxel', all(any(_inside(p, a, b, VOX_TOL) for a, b in g) for p in pts))
+    _check_filled(ctx, g, filled, pts, VOX_TOL)
+    ctx.check_true('filled.some', any(f == 1 for f in filled))
+
+
+# ------------------------------------------------------------------------------------------------
+# control points that are active at a parameter
+# ------------------------------------------------------------------------------------------------
+def _curve_shapes(tier):
+    out = []
+    pmax, kmax = (3, 2) if tier == 'quick' else (4, 3)
+    for p in range(1, pmax + 1):
+        for k in range(0, kmax + 1):
+            for mult in shapes.compositions(k, p):
+                out.append(dict(p=p, mult=list(mult), rational=False))
+    out += [dict(p=2, mult=[1], rational=True), dict(p=3, mult=[2, 1], rational=True)]
+    return out
+
+
+@scenario('C20', fns=['operations.find_ctrlpts', '_operations.find_ctrlpts_curve', 'helpers.find_span_linear'],
+          quick=lambda: _curve_shapes('quick'), thorough=lambda: _curve_shapes('thorough'))
+def find_ctrlpts_curve(ctx, p, mult, rational):
+    """requires: valid clamped curve (symbolic knots with the stated interior multiplicities, symbolic control points,
+                 positive weights), u anywhere in the domain
+       ensures : find_ctrlpts(curve, u) is the list of the p + 1 control points P_{s-p}..P_s of the knot span s containing u
+                 (in order): exactly the control points whose basis function is not identically zero on that span; every
+                 basis function outside the window vanishes at u and those inside sum to one"""
+    U, inner, n = shapes.make_kv(ctx, p, mult)
+    u = shapes.param_in(ctx, 'u', U[0], U[-1])
+    P = shapes.net(ctx, 'P', n, 2)
+    W = shapes.weights(ctx, 'w', n) if rational else None
+    crv = shapes.build_curve(ctx, p, U, P, W)
+    ops = ctx.geomdl('operations')
+    got = ops.find_ctrlpts(crv, u)
+    s = spec.span_spec(p, U, n, u)
+    ctx.check_true('window.len', len(got) == p + 1)
+    for i in range(p + 1):
+        ctx.check_eq_vec('window[%d]=P[%d]' % (i, s - p + i), got[i], P[s - p + i])
+    # the window is the support set: the basis functions of the returned points form a partition of unity at u and
+    # every other basis function is zero there (textbook half-open recursion; the domain end belongs to the last span)
+    if not (u >= U[-1]):
+        tot = 0
+        for i in range(n):
+            b = spec.halfopen_basis(i, p, U, u)
+            if s - p <= i <= s:
+                tot = tot + b
+            else:
+                ctx.check_eq('outside_window.basis[%d]=0' % i, b, 0)
+        ctx.check_eq('window.partition_of_unity', tot, 1)
+    row = spec.basis_row(p, U, s, u)
+    ctx.check_eq('window.span_anchored_partition_of_unity', _sum(row[i] for i in range(s - p, s + 1)), 1)
+
+
+def _surface_shapes(tier):
+    out = [dict(pu=1, pv=1, mu=[], mv=[1]), dict(pu=2, pv=1, mu=[1], mv=[]), dict(pu=2, pv=2, mu=[1], mv=[1]),
+           dict(pu=1, pv=3, mu=[1, 1], mv=[2])]
+    if tier == 'thorough':
+        out += [dict(pu=3, pv=2, mu=[1, 2], mv=[1, 1]), dict(pu=3, pv=3, mu=[3], mv=[1])]
+    return out
+
+
+@scenario('C20', fns=['operations.find_ctrlpts', '_operations.find_ctrlpts_surface', 'helpers.find_span_linear',
+                      'BSpline.Surface.ctrlpts2d'],
+          quick=lambda: _surface_shapes('quick'), thorough=lambda: _surface_shapes('thorough'))
+def find_ctrlpts_surface(ctx, pu, pv, mu, mv):
+    """requires: valid clamped surface, (u, v) anywhere in the domain
+       ensures : find_ctrlpts(surface, u, v)[k][l] = P[(su - pu + k), (sv - pv + l)] (layout v fastest) for the spans
+                 su, sv of u, v: the (pu+1) x (pv+1) block of control points whose tensor basis functions are active there;
+                 omitting v on a surface raises"""
+    U, iu, nu = shapes.make_kv(ctx, pu, mu, prefix='a')
+    V, iv, nv = shapes.make_kv(ctx, pv, mv, prefix='b')
+    u = shapes.param_in(ctx, 'u', U[0], U[-1])
+    v = shapes.param_in(ctx, 'v', V[0], V[-1])
+    P = shapes.net(ctx, 'P', nu * nv, 3)
+    srf = shapes.build_surface(ctx, pu, pv, U, V, P, nu, nv)
+    ops = ctx.geomdl('operations')
+    exc = ctx.geomdl('exceptions').GeomdlException
+    got = ops.find_ctrlpts(srf, u, v)
+    a = spec.span_spec(pu, U, nu, u)
+    b = spec.span_spec(pv, V, nv, v)
+    ctx.check_true('block.shape', len(got) == pu + 1 and all(len(r) == pv + 1 for r in got))
+    for k in range(pu + 1):
+        for l in range(pv + 1):
+            i, j = a - pu + k, b - pv + l
+            ctx.check_eq_vec('block[%d][%d]=P[%d,%d]' % (k, l, i, j), got[k][l], P[j + nv * i])
+    ctx.check_raises('surface.v_missing_raises', exc, ops.find_ctrlpts, srf, u)
+    ctx.check_raises('not_a_shape_raises', exc, ops.find_ctrlpts, [1, 2, 3], u)
